@@ -105,6 +105,9 @@ theorem valV_neg (c s : α) (n q : Nat) : valV c s n (-(q : Int)) = valVNeg c s 
     have h : ¬ (0 ≤ -((q+1 : Nat) : Int)) := by omega
     rw [if_neg h, Int.natAbs_neg, Int.natAbs_natCast]
 
+theorem valV_zero (c s : α) (n : Nat) : valV c s n 0 = col0 c s n 1 := valV_ofNat c s n 0
+theorem valV_one (c s : α) (n : Nat) : valV c s n 1 = col0 c s n 1 := valV_ofNat c s n 1
+
 /-! ### step 3 -/
 
 /-- recursion equation of `valW` on the m' = 1 column, in the shape of `_step_3` -/
